@@ -40,6 +40,18 @@ func SetRcode(req *dns.Msg, rcode int, do bool) *dns.Msg {
 // prefix ceiling. Every other client-supplied option is still dropped.
 // A nil policy or an empty client address means strip everything, which
 // matches SDNS's historical behaviour and the privacy-first default.
+// onlyThisOPT removes from extra every OPT record other than keep, in place.
+func onlyThisOPT(extra []dns.RR, keep *dns.OPT) []dns.RR {
+	out := extra[:0]
+	for _, rr := range extra {
+		if o, ok := rr.(*dns.OPT); ok && o != keep {
+			continue
+		}
+		out = append(out, rr)
+	}
+	return out
+}
+
 func SetEdns0(req *dns.Msg, policy *ecs.Policy, client netip.Addr) (*dns.OPT, int, string, bool, bool) {
 	do, nsid := false, false
 	opt := req.IsEdns0()
@@ -47,6 +59,12 @@ func SetEdns0(req *dns.Msg, policy *ecs.Policy, client netip.Addr) (*dns.OPT, in
 	cookie := ""
 
 	if opt != nil {
+		// "The" OPT is the last one in the message. RFC 6891 §6.1.1 allows
+		// one; any other would pass below untouched — client subnet, cookie
+		// and all — into what is sent upstream and into replies built from
+		// the request.
+		req.Extra = onlyThisOPT(req.Extra, opt)
+
 		size = int(opt.UDPSize())
 		if size < dns.MinMsgSize {
 			size = dns.MinMsgSize
